@@ -25,6 +25,9 @@ MANIFEST = {
             'X^(p^i) - X; only the bounded-exhaustive version is a theorem), next_irreducible for all a, find_irreducible '
             'smallest for all (p,d) (bounded instances only). GF/xGF acceptance is is_irreducible by inspection of '
             'finfields.xGF (modelled as gf_accepts := is_irreducible) and checked on the implementation against the sieve. '
+            'Beyond the exhaustive domains: find_irreducible(p,d) for p in {2,3,5,7,11,13,17,101,257} up to degree 24/16/12/10/9/9/8/5/4 '
+            '(more in thorough) and next_irreducible from random start points are compared with an independent Rabin-test scan of '
+            'every candidate (and with the Coq model for d <= 9, p <= 13). '
             'Search loops carry explicit fuel (None/NoFuel on exhaustion; bounded theorems show it does not occur there).',
     'technique': 'Coq executable model + bounded-exhaustive vm_compute theorems (the former refutation witness p=3, a=0 is now a regression input) + exhaustive differential '
                  'correspondence + brute-force sieve oracle',
@@ -51,6 +54,79 @@ def r_mul(p, a, b):
         for j, y in enumerate(b):
             c[i + j] = (c[i + j] + x * y) % p
     return c
+
+
+def r_trim(a):
+    while a and a[-1] == 0:
+        a.pop()
+    return a
+
+
+def r_mod(p, a, f):
+    """a mod f over GF(p), f nonzero (little-endian coefficient lists)"""
+    a = r_trim(list(a))
+    df = len(f) - 1
+    inv = pow(f[-1], -1, p)
+    while len(a) - 1 >= df and a:
+        q = a[-1] * inv % p
+        sh = len(a) - 1 - df
+        for i, c in enumerate(f):
+            a[sh + i] = (a[sh + i] - q * c) % p
+        r_trim(a)
+    return a
+
+
+def r_sub(p, a, b):
+    n = max(len(a), len(b))
+    return r_trim([((a[i] if i < len(a) else 0) - (b[i] if i < len(b) else 0)) % p for i in range(n)])
+
+
+def r_gcd(p, a, b):
+    a, b = r_trim(list(a)), r_trim(list(b))
+    while b:
+        a, b = b, r_mod(p, a, b)
+    return a
+
+
+def r_powmod(p, a, n, f):
+    r, b = [1], r_mod(p, a, f)
+    while n:
+        if n & 1:
+            r = r_mod(p, r_mul(p, r, b), f)
+        b = r_mod(p, r_mul(p, b, b), f)
+        n >>= 1
+    return r
+
+
+def rabin_irreducible(p, f):
+    """Rabin's test (independent of the package's Ben-Or test): f of degree n >= 1 is irreducible over GF(p) iff
+    X^(p^n) = X mod f and gcd(X^(p^(n/q)) - X, f) = 1 for every prime q | n."""
+    f = r_trim(list(f))
+    n = len(f) - 1
+    if n < 1:
+        return False
+    if n == 1:
+        return True
+    X = [0, 1]
+    qs = [q for q in range(2, n + 1) if n % q == 0 and all(q % r for r in range(2, q))]
+    for q in qs:
+        h = r_sub(p, r_powmod(p, X, p ** (n // q), f), X)
+        if len(r_gcd(p, h, f)) != 1:
+            return False
+    return not r_sub(p, r_powmod(p, X, p ** n, f), r_mod(p, X, f))
+
+
+def rabin_next_irr(p, a):
+    """smallest monic irreducible with integer encoding > a (independent scan)"""
+    b = a + 1
+    while True:
+        c = r_from_int(p, b)
+        if c and c[-1] != 1:
+            b = p ** len(c)
+            continue
+        if rabin_irreducible(p, c):
+            return b
+        b += 1
 
 
 class Sieve:
@@ -229,6 +305,39 @@ def run(ctx):
             rexprs.append('[cb (is_irreducible %d (from_int %d %d))]' % (p, p, a))
             rexpect.append([int(got)])
             rmeta.append({'p': p, 'a': a, 'op': 'is_irreducible', 'kind': kind})
+    # ---- degrees beyond the sieve: find_irreducible(p, d) and next_irreducible from random start points against an
+    # independent Rabin test scanning every candidate (the smallest monic irreducible must not be skipped)
+    hi = {2: ctx.n(24, 40), 3: ctx.n(16, 24), 5: ctx.n(12, 18), 7: ctx.n(10, 14), 11: ctx.n(9, 12), 13: ctx.n(9, 12),
+          17: ctx.n(8, 10), 101: ctx.n(5, 7), 257: ctx.n(4, 6)}
+    nhi = 0
+    for p, D in hi.items():
+        P = gfpx.GFpX(p)
+        for d in range(1, D + 1):
+            if p in bounds and d < bounds[p]:
+                continue                                   # inside the exhaustive part above
+            want = rabin_next_irr(p, p ** d - 1)
+            got = int(finfields.find_irreducible(p, d))
+            nhi += 1
+            ctx.case({'p': p, 'd': d, 'op': 'find_irreducible-high'}, nontrivial=True, kind='find_irreducible high degree')
+            if got != want:
+                ctx.violation('find_irreducible-wrong p=%d d=%d high-degree' % (p, d),
+                              {'p': p, 'd': d, 'got': got, 'got_coef': r_from_int(p, got), 'want': want,
+                               'want_coef': r_from_int(p, want), 'oracle': 'Rabin test on every candidate from p^d upward'})
+            elif d <= ctx.n(9, 12) and p <= 13:
+                rexprs.append(('[cz (find_irreducible2 600 %d)]' % d) if p == 2 else ('[cl %d (find_irreducible %d 600 %d)]' % (p, p, d)))
+                rexpect.append([got])
+                rmeta.append({'p': p, 'd': d, 'op': 'find_irreducible-high'})
+            for rep in range(ctx.n(2, 8)):
+                a = rng.randrange(p ** d, 2 * p ** d if rep % 2 else p ** (d + 1))
+                want = rabin_next_irr(p, a)
+                got = int(P.next_irreducible(P(a)))
+                nhi += 1
+                ctx.case({'p': p, 'a': a, 'op': 'next_irreducible-high'}, nontrivial=True, kind='next_irreducible high degree')
+                if got != want:
+                    ctx.violation('next_irreducible-wrong p=%d high-degree' % p,
+                                  {'p': p, 'a': a, 'got': got, 'want': want, 'a_coef': r_from_int(p, a),
+                                   'want_coef': r_from_int(p, want)})
+    ctx.log('high-degree find/next_irreducible against the independent Rabin scan: %d cases' % nhi)
     # ---- the historical failing input of finding F-C24-1 (X skipped for odd p)
     P3 = gfpx.GFpX(3)
     if P3.is_irreducible(P3(3)) and int(P3.next_irreducible(P3(0))) != 3:
